@@ -737,6 +737,36 @@ def concrete_attr(it, py, name):
     return None
 
 
+def deep_copy_value(it, v, memo):
+    """copy.deepcopy on the modelled heap: fresh cells for lists and
+    concrete-key dictionaries (sharing inside the value preserved), scalars
+    as they are; anything else is outside the subset."""
+    ctx = it.ctx
+    if isinstance(v, (VInt, VBool, VStr, VBox)) or v is VNone:
+        return v
+    if isinstance(v, VTuple):
+        return VTuple([deep_copy_value(it, x, memo) for x in v.items])
+    if isinstance(v, VConc) and isinstance(v.py, dict) and not v.py:
+        return ctx.alloc(DictCell({}))
+    if isinstance(v, VRef):
+        if v.ref in memo:
+            return memo[v.ref]
+        c = ctx.cell(v)
+        if isinstance(c, ListCell):
+            n = ctx.alloc(ListCell([]))
+            memo[v.ref] = n
+            ctx.cell(n).items.extend(
+                deep_copy_value(it, x, memo) for x in c.items)
+            return n
+        if isinstance(c, DictCell) and c.sym is None:
+            n = ctx.alloc(DictCell({}))
+            memo[v.ref] = n
+            for k, x in c.items.items():
+                ctx.cell(n).items[k] = deep_copy_value(it, x, memo)
+            return n
+    raise Unsupported('deepcopy of %r' % (v,))
+
+
 def concrete_dict_method(it, d, name, args, kwargs):
     if name == 'get':
         default = args[1] if len(args) > 1 else VNone
@@ -885,9 +915,7 @@ def call_concrete(it, py, args, kwargs):
         v = args[0]
         if isinstance(v, VConc) and isinstance(v.py, dict) and not v.py:
             return ctx.alloc(DictCell({}))
-        if isinstance(v, (VInt, VBool, VStr)) or v is VNone:
-            return v
-        raise Unsupported('deepcopy of %r' % (v,))
+        return deep_copy_value(it, v, {})
     if isinstance(py, tuple) and py and py[0] == 'lambda':
         return call_lambda(it, py[1], args)
     raise Unsupported('call of %r' % (py,))
